@@ -584,16 +584,9 @@ Section Family.
     end.
 
   Definition core_family : OpFamily cop tshape (@OpFamily.vec R) :=
-    {| f_argn := fun o => ArgExact (length (d_args (describe o)));
-       f_retn := fun o => length (d_rets (describe o));
-       f_inner := fun o => match o with OParam p _ => Some p | _ => None end;
-       f_dev := fun o => match o with OParam _ _ | OInput _ _ => Some 0 | _ => None end;
-       f_rand := fun _ => None;
-       f_nop := fun o => d_nop (describe o);
-       f_shape := fun o ashs => desc_shape (describe o) ashs;
-       f_fw := fun o _ xs => d_fw (describe o) xs;
-       f_bw := fun o xs ys gys => d_bw (describe o) xs ys gys |}.
-  Definition core_jvp : JvpFamily (R := R) cop := fun o _ xs dxs => d_jvp (describe o) xs dxs.
+    desc_family describe (fun o => match o with OParam p _ => Some p | _ => None end)
+                         (fun o => match o with OParam _ _ | OInput _ _ => Some 0 | _ => None end).
+  Definition core_jvp : JvpFamily (R := R) cop := desc_jvp describe.
 
   (* ---------------------------------------------------------------- LocalAdjoint, per operator *)
   Lemma leaf_LA s v ok nop : desc_LA (leaf_desc s v ok nop).
@@ -671,20 +664,8 @@ Section Family.
       intros dx Hd. rewrite <- Hd. apply un_eval_map.
   Qed.
 
-  (* a descriptor's adjointness is LocalAdjoint of the family *)
-  Theorem core_LocalAdjoint (o : cop) : LocalAdjoint rO radd rmul core_family core_jvp tsize o.
-  Proof.
-    intros pos ashs rshs xs dxs gys Hs Hx Hdx Hgy. cbn [core_family f_shape f_fw] in *. unfold desc_shape in Hs.
-    destruct (d_ok (describe o)) eqn:Hok; [|discriminate]. cbn [andb] in Hs.
-    destruct (shapes_eqb ashs (d_args (describe o))) eqn:Hsh; [|discriminate]. injection Hs as <-.
-    apply shapes_eqb_eq in Hsh. subst ashs.
-    destruct (describe_LA o Hok xs dxs gys Hx Hdx Hgy) as (E & Hinc & Hj).
-    unfold eff_bw, core_jvp. cbn [core_family f_nop f_bw f_fw]. cbv zeta. split; [exact E|split; [|exact Hj]].
-    intros i inc Hi. destruct (d_nop (describe o)); [destruct i; discriminate|].
-    specialize (Hinc eq_refl). clear - Hinc Hi. revert i Hi. induction Hinc as [|x sh l l' Hxs _ IH]; intros [|i] Hi; try discriminate.
-    - injection Hi as <-. exists sh. split; [reflexivity|exact Hxs].
-    - apply IH. exact Hi.
-  Qed.
+    Theorem core_LocalAdjoint (o : cop) : LocalAdjoint rO radd rmul core_family core_jvp tsize o.
+  Proof. apply (desc_family_LA rO radd rmul). apply describe_LA. Qed.
 
   (* ---------------------------------------------------------------- end to end *)
   Notation VO := (vec_ops rO rI radd tsize).
